@@ -497,6 +497,18 @@ fn establish_c(s: u64, npre: usize, en: bool, op: Op, early: &[String], wb: u64,
     let prog: Prog = Arc::new(Mutex::new(Progress::default()));
     ex.spawn(app(w.clone(), en, npre, op, prog.clone()));
     ex.run();
+    let first_flight = early.first().map(|e| e == "!").unwrap_or(false);
+    if first_flight {
+        for e in &early[1..] {
+            if e == "p" {
+                ex.run();
+            } else {
+                assert!(apply_event(&w, e), "bad event {}", e);
+            }
+        }
+        ex.run();
+    }
+    let early: &[String] = if first_flight { &[] } else { early };
     ev(&w, &mut ex, "U2");
     ev(&w, &mut ex, &format!("2:c:{}", SETTINGS.replace(' ', "")));
     for i in 0..npre {
@@ -643,9 +655,14 @@ fn main() {
                 6
             };
             let its = items(sid, hist);
+            let early_tok = early;
             let early = *early != "0" && !bidi;
             let mut pre: Vec<String> = vec![];
             if early {
+                if *early_tok == "2" {
+                    // the peer's uni stream arrives (and is polled) BEFORE its control stream and SETTINGS
+                    pre.push("!".to_string());
+                }
                 pre.push(format!("U{}", sid));
                 pre.extend(its.iter().cloned());
             }
